@@ -450,6 +450,8 @@ class IncomerTls(Incomer):
             raise
 
         self.connected = True
+        if self.refreshable:
+            self.refresh()  # idle period starts once handshake bytes stop
         return True
 
     def serviceHandshake(self):
@@ -513,6 +515,9 @@ class IncomerTls(Incomer):
             if self.wlog:  # log over the wire rx
                 self.wlog.writeRx(self.ca, data)
 
+            if self.refreshable:
+                self.refresh()
+
         else:  # data empty so connection closed on other end
             self.cutoff = True
 
@@ -563,6 +568,9 @@ class IncomerTls(Incomer):
 
             if self.wlog:
                 self.wlog.writeTx(self.ca, data[:result])
+
+            if self.refreshable:
+                self.refresh()
 
         return result
 
